@@ -33,7 +33,8 @@ def rand_script(rng, maxlen, insert=False):
         else:
             s.append(Q.P(k))
     if insert and rng.random() < 0.8:
-        s.insert(rng.randrange(0, len(s) + 1), Q.P("hdr"))
+        for _ in range(rng.choice([1, 1, 1, 2, 3])):     # (a server may repeat the header block)
+            s.insert(rng.randrange(0, len(s) + 1), Q.P("hdr"))
     s.append(Q.P(rng.choice(["eos", "eos", "exc"])))
     return s
 
@@ -54,7 +55,7 @@ def scenarios(run):
     for i in range(6000 if T else 700):
         present = rng.choice([Q.ALL_CBS, Q.ALL_CBS, [], ["result"], rng.sample(Q.ALL_CBS, rng.randrange(0, 7))])
         if rng.random() < 0.75:
-            c = Q.cfg("select", rand_script(rng, maxlen), present=present, ext=rng.random() < 0.1,
+            c = Q.cfg("select", rand_script(rng, maxlen), present=present, ext=Q.rand_ext(rng, 0.1),
                       rfail=(rng.randrange(1, 12) if rng.random() < 0.25 else 0))
         else:
             c = Q.cfg(rng.choice(["insert", "stream"]), rand_script(rng, maxlen // 2, insert=True), present=present,
@@ -80,7 +81,8 @@ def scenarios(run):
 
 
 def body(run):
-    st = Q.design(PID, ["MC_QL_qselect.cfg"] + (["MC_QL_select.cfg", "MC_QL_insert.cfg"] if run.thorough() else []))
+    st = Q.design(PID, ["MC_QL_qselect.cfg", "MC_QL_ends.cfg", "MC_QL_info.cfg"] + (["MC_QL_select.cfg", "MC_QL_insert.cfg"] if run.thorough() else []),
+                  nonvac=[("MC_QL_info_neg_once.cfg", "Returns")])
     drv = V.go_build(PID, "drv")
     scs = scenarios(run)
     lines, stats, v = Q.check_and_report(run, PID, drv, scs, "c03")
